@@ -446,6 +446,9 @@ class Interp:
         if m is not None:
             self.st.used_models.add(_qn(func))
             return m(self, args, kwargs)
+        if getattr(func, '_pv_recursive', False):
+            from . import models
+            return models.call_recursive_spec(self, func, args, kwargs)
         code = func.__code__
         if is_interpretable_file(code.co_filename):
             return self.call_real_function(func, args, kwargs, defcls)
@@ -802,6 +805,11 @@ class Interp:
                             if all(isinstance(self.eq(alt, b), bool) for alt in a.alts) else self._eq_resolved(a, b))
             if isinstance(b, SChoice) and not isinstance(a, Sym):
                 return self.eq(b, a)
+            if isinstance(a, SChoice) and isinstance(b, SChoice) and \
+                    all(isinstance(x, enum.Enum) for x in a.alts + b.alts):
+                hits = [z3.And(a.idx == i, b.idx == k) for i, x in enumerate(a.alts)
+                        for k, y in enumerate(b.alts) if x == y]
+                return wrap(z3.Or(*hits)) if hits else False
             return self._eq_resolved(a, b)
         from . import models as _m
         if isinstance(a, _m.SMap):
@@ -904,6 +912,11 @@ class Interp:
             return self.is_(b, a)
         if isinstance(a, SChoice):
             if isinstance(b, SChoice):
+                if not contains_sym(a.alts, 0) and not contains_sym(b.alts, 0):
+                    # two choices among concrete objects: the pairs of alternatives that are the same object
+                    hits = [z3.And(a.idx == i, b.idx == k) for i, x in enumerate(a.alts)
+                            for k, y in enumerate(b.alts) if x is y]
+                    return wrap(z3.Or(*hits)) if hits else False
                 return self.is_(self.resolve(a), b)
             hits = [a.idx == i for i, alt in enumerate(a.alts) if alt is b]
             if not hits:
